@@ -88,6 +88,18 @@ CHECKS = {
          'One known finding (nested sub-sampling misjudged by the median-interval rule) is excluded by construction and reported as KNOWN-FINDING.',
     note='Self-difference "exactly zero" judged within 64 ulp of column magnitudes; antisymmetry at +-180 modulo 360.',
     design='DESIGN.md section 4, C18'),
+ 'C01': dict(
+    technique='property-based differential testing against an independent RK4 solution of the NED navigation ODE on WGS-84; halving-change metamorphic rule',
+    text='Generated initial states over the whole stated domain x 3-axis sinusoid-sum body signals x sensor type x h in 1..50 ms x horizons 2..300 s; the user path compute_increments_from_imu -> Integrator.integrate is compared with an own '
+         'reference (different formulation, own constants): err(h) <= 4*|X_h - X_h/2| + floor and err(h/2) <= 0.75 err(h) + floor per state group, so any error component that does not vanish with the interval is exposed. Exploration.',
+    note='Reference RK4 at 0.5/0.25 ms (their difference enters the floor); rounding floors 1e-4 m / 1e-6 m/s / 1e-9 rad; horizons up to 300 s in the registered tiers (Schuler-length runs only via PV_ options, see DESIGN).',
+    design='DESIGN.md section 4, C01'),
+ 'C03': dict(
+    technique='property-based testing against designed trajectories with exact kinematics from second-order jets (cross-validated against the navigation ODE); halving-change rule; strapdown round trip',
+    text='Generated smooth trajectories (both hemispheres, up to 250 m/s, 3-axis attitude motion) x three input forms x two sensor types x ladder 100..12.5 ms: synthesised readings vs exact w_ib^b / f^b (or Gauss-Legendre integrals), '
+         'returned trajectories vs the design, round-trip through the integrator, and rest cases vs C^T Omega / -C^T g. Exploration.',
+    note='Stated rounding floor for accelerations 128*ulp(6.4e6)/h^2 (double differentiation of inertial position inside the synthesiser).',
+    design='DESIGN.md section 4, C03'),
 }
 NOT_YET = 'check not built yet in this session (planned, see DESIGN.md section 8); not claimed until its check exists'
 
